@@ -415,6 +415,180 @@ func extractC12() *lean {
 	collect(psf, &rewrite, func(string) bool { return true })
 	fmtPaths = uniqSorted(fmtPaths)
 	rewrite = uniqSorted(rewrite)
+	// ---- consumers of vcr/pe: how the results are wired (call sites)
+	// (a) every caller of PEXConsumer.fulfill in auth/api/iam returns when it fails
+	var fulfillCallers []string
+	rawCallers := map[string]interface{}{}
+	iamFiles, _ := filepath.Glob(filepath.Join(repo, "auth/api/iam/*.go"))
+	sort.Strings(iamFiles)
+	for _, fn := range iamFiles {
+		if strings.HasSuffix(fn, "_test.go") {
+			continue
+		}
+		rel, _ := filepath.Rel(repo, fn)
+		_, af := parseFile(rel)
+		for _, d := range af.Decls {
+			fd, ok := d.(*ast.FuncDecl)
+			if !ok || fd.Body == nil {
+				continue
+			}
+			ast.Inspect(fd.Body, func(n ast.Node) bool {
+				switch x := n.(type) {
+				case *ast.IfStmt:
+					if as, ok := x.Init.(*ast.AssignStmt); ok && len(as.Rhs) == 1 {
+						if ce, ok := as.Rhs[0].(*ast.CallExpr); ok && strings.HasSuffix(exprString(ce.Fun), ".fulfill") {
+							guarded := exprString(x.Cond) == "err != nil" && len(x.Body.List) > 0
+							if guarded {
+								_, guarded = x.Body.List[len(x.Body.List)-1].(*ast.ReturnStmt)
+							}
+							fulfillCallers = append(fulfillCallers, fmt.Sprintf("(%q, %v)", fd.Name.Name, guarded))
+							rawCallers[fd.Name.Name] = guarded
+							return false
+						}
+					}
+				case *ast.CallExpr:
+					if strings.HasSuffix(exprString(x.Fun), ".fulfill") {
+						fulfillCallers = append(fulfillCallers, fmt.Sprintf("(%q, false)", fd.Name.Name))
+						rawCallers[fd.Name.Name] = false
+					}
+				}
+				return true
+			})
+		}
+	}
+	sort.Strings(fulfillCallers)
+	l.def("iamFulfillCallers", "List (String × Bool)", "["+strings.Join(fulfillCallers, ", ")+"]", rawCallers)
+
+	// (b) access_token.go: the claims come from resolveInputDescriptorValues over the map returned by credentialMap()
+	_, atf := parseFile("auth/api/iam/access_token.go")
+	cmVar, fieldsFromCM := "", false
+	ast.Inspect(atf, func(n ast.Node) bool {
+		switch x := n.(type) {
+		case *ast.AssignStmt:
+			if len(x.Rhs) == 1 && len(x.Lhs) >= 1 {
+				if ce, ok := x.Rhs[0].(*ast.CallExpr); ok && strings.HasSuffix(exprString(ce.Fun), ".credentialMap") {
+					cmVar = exprString(x.Lhs[0])
+				}
+			}
+		case *ast.CallExpr:
+			if exprString(x.Fun) == "resolveInputDescriptorValues" && len(x.Args) == 2 && cmVar != "" && exprString(x.Args[1]) == cmVar {
+				fieldsFromCM = true
+			}
+		}
+		return true
+	})
+	l.def("accessTokenFieldsFromCredentialMap", "Bool", fmt.Sprint(fieldsFromCM), fieldsFromCM)
+
+	// (c) session.go: fulfill validates against the required definition and stores only afterwards; credentialMap resolves the
+	//     stored submission in the stored envelope of the same definition
+	_, ssf := parseFile("auth/api/iam/session.go")
+	fulfillValidates, cmSameKey := false, false
+	if fd := funcDecl(ssf, "fulfill"); fd != nil {
+		var validatePos, storePos token.Pos
+		ast.Inspect(fd, func(n ast.Node) bool {
+			switch x := n.(type) {
+			case *ast.CallExpr:
+				if exprString(x.Fun) == "submission.Validate" && len(x.Args) == 2 && exprString(x.Args[0]) == "envelope" && exprString(x.Args[1]) == "*definition" {
+					validatePos = x.Pos()
+				}
+			case *ast.AssignStmt:
+				if len(x.Lhs) == 1 && exprString(x.Lhs[0]) == "v.Submissions[definitionID]" {
+					storePos = x.Pos()
+				}
+			}
+			return true
+		})
+		fulfillValidates = validatePos.IsValid() && storePos.IsValid() && validatePos < storePos
+	}
+	if fd := funcDecl(ssf, "credentialMap"); fd != nil {
+		subKey, envKey, resolveOK := "", "", false
+		ast.Inspect(fd, func(n ast.Node) bool {
+			switch x := n.(type) {
+			case *ast.AssignStmt:
+				if len(x.Lhs) == 1 && len(x.Rhs) == 1 {
+					r := exprString(x.Rhs[0])
+					if strings.HasPrefix(r, "v.Submissions[") {
+						subKey = r[len("v.Submissions["):]
+					}
+					if strings.HasPrefix(r, "v.SubmittedEnvelopes[") {
+						envKey = r[len("v.SubmittedEnvelopes["):]
+					}
+				}
+			case *ast.CallExpr:
+				if exprString(x.Fun) == "submission.Resolve" && len(x.Args) == 1 && exprString(x.Args[0]) == "pexEnvelope" {
+					resolveOK = true
+				}
+			}
+			return true
+		})
+		cmSameKey = resolveOK && subKey != "" && subKey == envKey
+	}
+	l.def("fulfillValidatesBeforeStoring", "Bool", fmt.Sprint(fulfillValidates), fulfillValidates)
+	l.def("credentialMapResolvesInOwnEnvelope", "Bool", fmt.Sprint(cmSameKey), cmSameKey)
+
+	// (d) discovery/module.go: Search zips Match's two results by the same index; a registration must match ALL its credentials
+	_, dmf := parseFile("discovery/module.go")
+	zipAligned, regAll := false, false
+	ast.Inspect(dmf, func(n ast.Node) bool {
+		switch x := n.(type) {
+		case *ast.AssignStmt:
+			if len(x.Lhs) == 1 && len(x.Rhs) == 1 {
+				lh, rh := exprString(x.Lhs[0]), exprString(x.Rhs[0])
+				if lh == "credentialMap[inputDescriptorMappingObjects[i].Id]" && rh == "submissionVCs[i]" {
+					zipAligned = true
+				}
+			}
+			if len(x.Lhs) == 3 && len(x.Rhs) == 1 && strings.HasSuffix(exprString(x.Rhs[0]), "PresentationDefinition.Match()") {
+				if exprString(x.Lhs[0]) != "submissionVCs" && exprString(x.Lhs[0]) != "creds" {
+					zipAligned = false
+				}
+			}
+		case *ast.IfStmt:
+			if be, ok := x.Cond.(*ast.BinaryExpr); ok && be.Op == token.NEQ && len(x.Body.List) == 1 {
+				lx, ok1 := be.X.(*ast.CallExpr)
+				ly, ok2 := be.Y.(*ast.CallExpr)
+				if ok1 && ok2 && exprString(lx.Fun) == "len" && exprString(ly.Fun) == "len" && len(lx.Args) == 1 && len(ly.Args) == 1 &&
+					exprString(lx.Args[0]) == "creds" && exprString(ly.Args[0]) == "presentation.VerifiableCredential" {
+					if _, ok := x.Body.List[0].(*ast.ReturnStmt); ok {
+						regAll = true
+					}
+				}
+			}
+		}
+		return true
+	})
+	l.def("discoverySearchZipsMatchResultsByIndex", "Bool", fmt.Sprint(zipAligned), zipAligned)
+	l.def("discoveryRegistrationMatchesAllCredentials", "Bool", fmt.Sprint(regAll), regAll)
+
+	// (e) vcr/holder/presenter.go: the presentation is built from exactly the sign instruction's credentials, with the format passed to Build
+	_, hpf := parseFile("vcr/holder/presenter.go")
+	presentsSelected := false
+	if fd := funcDecl(hpf, "buildSubmission"); fd != nil {
+		ast.Inspect(fd, func(n ast.Node) bool {
+			if ce, ok := n.(*ast.CallExpr); ok && strings.HasSuffix(exprString(ce.Fun), ".buildPresentation") && len(ce.Args) >= 3 &&
+				exprString(ce.Args[2]) == "signInstruction.VerifiableCredentials" {
+				presentsSelected = true
+			}
+			return true
+		})
+	}
+	l.def("presenterPresentsSignInstructionCredentials", "Bool", fmt.Sprint(presentsSelected), presentsSelected)
+
+	// (f) Validate zips the sign instruction's mappings and credentials by the same index
+	validateZip := false
+	if fd := funcDecl(psf, "Validate"); fd != nil {
+		ast.Inspect(fd, func(n ast.Node) bool {
+			if rs, ok := n.(*ast.RangeStmt); ok && exprString(rs.X) == "signInstruction.Mappings" && rs.Key != nil && rs.Value != nil && len(rs.Body.List) == 1 {
+				if as, ok := rs.Body.List[0].(*ast.AssignStmt); ok && len(as.Lhs) == 1 && len(as.Rhs) == 1 &&
+					exprString(as.Lhs[0]) == "expectedCredentials["+exprString(rs.Value)+".Id]" &&
+					exprString(as.Rhs[0]) == "signInstruction.VerifiableCredentials["+exprString(rs.Key)+"]" {
+					validateZip = true
+				}
+			}
+			return true
+		})
+	}
+	l.def("validateZipsMappingsAndCredentialsByIndex", "Bool", fmt.Sprint(validateZip), validateZip)
 	l.def("mappingPathFormats", "List String", leanStrList(fmtPaths), fmtPaths)
 	l.def("singleMappingPaths", "List String", leanStrList(rewrite), rewrite)
 	return l
